@@ -181,6 +181,15 @@ func (fe *FuncEnc) instr(ins ssa.Instruction, st *State) {
 		}
 		et := ptrElem(x.Type())
 		stT := ptrElem(x.X.Type())
+		if !isValueLike(stT) && !isStructVal(et) {
+			// leaf field of an object: if its address is used as a pointer value (passed to a
+			// call), give it an identity (contents through that pointer are not modelled: A7)
+			if fe.addrEscapes(x) {
+				p0 := fe.val(x.X)
+				fe.setVal(x, fmt.Sprintf("(hv_sub %s %d)", p0, fe.eng.subTag(typeLabel(stT), x.Field)))
+				fe.knownNonNil[fe.vals[x]] = true
+			}
+		}
 		if isValueLike(stT) {
 			// field of a plain-data value: resolved structurally at loads/stores
 			if ba := fe.addrOf(st, x.X); ba.local == nil && len(ba.path) == 0 {
@@ -248,6 +257,9 @@ func (fe *FuncEnc) instr(ins ssa.Instruction, st *State) {
 		if a.leaf {
 			fe.curTarget = a.baseVal
 		}
+		if lock, key, ok := fe.guardOf(a); ok {
+			fe.oblige(st, "guard", "write."+key, "(= "+fe.lockHeld(st, lock)+" 2)", x.Pos(), "guarded field "+key+" is written with its lock held exclusively")
+		}
 		fe.store(st, a, fe.val(x.Val))
 		fe.curTarget = nil
 	case *ssa.Slice:
@@ -299,6 +311,9 @@ func (fe *FuncEnc) instr(ins ssa.Instruction, st *State) {
 		mt := x.Map.Type().Underlying().(*types.Map)
 		m := fe.val(x.Map)
 		fe.oblige(st, "nil", "", "(not (= "+m+" 0))", x.Pos(), "assignment to entry in nil map")
+		if lock, ok := fe.guardedVals[m]; ok {
+			fe.oblige(st, "guard", "mapwrite", "(= "+fe.lockHeld(st, lock)+" 2)", x.Pos(), "guarded map is updated with its lock held exclusively")
+		}
 		fe.curTarget = x.Map
 		fe.mapStore(st, mt, m, fe.val(x.Key), fe.val(x.Value), true)
 		fe.curTarget = nil
@@ -322,6 +337,10 @@ func (fe *FuncEnc) instr(ins ssa.Instruction, st *State) {
 		fe.defers = append(fe.defers, x)
 		fe.deferFlag[x] = st.pc
 		fe.deferArgs[x] = fe.captureArgs(x.Common())
+		key := fmt.Sprintf("defer:%d:%d", x.Block().Index, len(fe.defers))
+		fe.deferKey[x] = key
+		fe.ghostSorts[key] = sBool
+		st.ghost[key] = "true"
 	case *ssa.RunDefers:
 		fe.runDefers(st)
 	case *ssa.Go:
@@ -346,6 +365,61 @@ func (fe *FuncEnc) instr(ins ssa.Instruction, st *State) {
 		}
 		fe.havocAll(st, fmt.Sprintf("unsupported %T", ins))
 	}
+}
+
+func (fe *FuncEnc) addrEscapes(x ssa.Value) bool {
+	refs := x.Referrers()
+	if refs == nil {
+		return false
+	}
+	for _, r := range *refs {
+		switch r := r.(type) {
+		case *ssa.DebugRef, *ssa.UnOp, *ssa.FieldAddr, *ssa.IndexAddr:
+		case *ssa.Store:
+			if r.Val == x {
+				return true
+			}
+		default:
+			return true
+		}
+	}
+	return false
+}
+
+// guardOf returns the lock-address term guarding a leaf field access, if the
+// field is declared guarded.
+func (fe *FuncEnc) guardOf(a addr) (string, string, bool) {
+	if !a.leaf || a.owner == nil {
+		return "", "", false
+	}
+	n, ok := a.owner.(*types.Named)
+	if !ok {
+		return "", "", false
+	}
+	st := a.owner.Underlying().(*types.Struct)
+	key := n.Obj().Name() + "." + st.Field(a.field).Name()
+	lockField, ok := fe.eng.cs.Guarded[key]
+	if !ok {
+		return "", "", false
+	}
+	for i := 0; i < st.NumFields(); i++ {
+		if st.Field(i).Name() == lockField {
+			return fmt.Sprintf("(hv_sub %s %d)", a.ptr, fe.eng.subTag(typeLabel(a.owner), i)), key, true
+		}
+	}
+	return "", "", false
+}
+
+func (fe *FuncEnc) lockHeld(st *State, lock string) string {
+	g := fe.eng.cs.Ghosts["sync.RWMutex.held"]
+	if g == nil {
+		g = fe.eng.cs.Ghosts["RWMutex.held"]
+	}
+	if g == nil {
+		fe.fail("verif:guarded needs ghost field sync.RWMutex.held")
+	}
+	h := fe.heapGet(st, ghostVar(g), arrSort(sInt))
+	return fmt.Sprintf("(select %s %s)", h, lock)
 }
 
 // checkAddrUses records a note when an address that is only modelled
@@ -455,8 +529,14 @@ func (fe *FuncEnc) unop(x *ssa.UnOp, st *State) {
 		if a.local == nil && len(a.path) == 0 {
 			fe.nilCheck(st, a.ptr, x.Pos(), "load")
 		}
+		if lock, key, ok := fe.guardOf(a); ok {
+			fe.oblige(st, "guard", "read."+key, "(not (= "+fe.lockHeld(st, lock)+" 0))", x.Pos(), "guarded field "+key+" is read with its lock held")
+		}
 		fe.loadTop = ""
 		fe.setVal(x, fe.load(st, a))
+		if lock, _, ok := fe.guardOf(a); ok {
+			fe.guardedVals[fe.vals[x]] = lock
+		}
 		if a.local == nil {
 			if !(a.leaf || len(a.path) == 0) || isStructVal(a.rootTyp) {
 				fe.loadTop = "" // composite loads read several versions
@@ -757,6 +837,9 @@ func (fe *FuncEnc) lookup(x *ssa.Lookup, st *State) {
 	switch xt := x.X.Type().Underlying().(type) {
 	case *types.Map:
 		m, k := fe.val(x.X), fe.val(x.Index)
+		if lock, ok := fe.guardedVals[m]; ok {
+			fe.oblige(st, "guard", "mapread", "(not (= "+fe.lockHeld(st, lock)+" 0))", x.Pos(), "guarded map is read with its lock held")
+		}
 		has := fmt.Sprintf("(and (not (= %s 0)) (select %s %s))", m, fe.mapHasArr(st, xt, m), k)
 		v := fmt.Sprintf("(select %s %s)", fe.mapValArr(st, xt, m), k)
 		hasT := fe.sc.define(x.Name()+".ok", sBool, has)
@@ -995,19 +1078,21 @@ func (fe *FuncEnc) captureArgs(c *ssa.CallCommon) []string {
 }
 
 func (fe *FuncEnc) runDefers(st *State) {
+	seen := map[*ssa.Defer]bool{}
 	for i := len(fe.defers) - 1; i >= 0; i-- {
 		d := fe.defers[i]
-		flag, ok := fe.deferFlag[d]
-		if !ok {
+		if seen[d] {
 			continue
 		}
+		seen[d] = true
 		// The deferred call runs iff the Defer instruction was executed on this path.
-		// Functions in scope only defer unconditionally at top level; otherwise fall back to havoc.
-		if !d.Block().Dominates(fe.curBlock) {
-			_ = flag
-			fe.havocAll(st, "conditional defer")
-			continue
+		switch st.ghost[fe.deferKey[d]] {
+		case "true":
+			fe.callCommon(nil, d.Common(), st, fe.deferArgs[d], d.Pos())
+		case "", "false":
+			// not executed on this path
+		default:
+			fe.havocAll(st, "conditionally executed defer")
 		}
-		fe.callCommon(nil, d.Common(), st, fe.deferArgs[d], d.Pos())
 	}
 }
